@@ -50,6 +50,9 @@ CASES = {
     "lgs-lgs-same-alt": dict(masks=[[[1, 1, 0], [0, 1, 1], [1, 0, 0]], [[0, 1, 1], [1, 1, 0], [0, 0, 1]]], d=[1 / 3., 1 / 3.], H=[20000., 20000.], theta=[[5, 0], [20, -10]]),
     "three-wfs": dict(masks=[numpy.ones((2, 2)), [[1, 0], [1, 1]], [[0, 1], [1, 1]]], d=[.5, .5, .5], H=[0, 0, 0], theta=[[0, 0], [15, 5], [-8, 12]]),
     "ngs-lgs": dict(masks=[[[1, 1, 0], [0, 1, 1], [1, 0, 0]], [[0, 1, 1], [1, 1, 0], [0, 0, 1]]], d=[1 / 3., 1 / 3.], H=[0, 20000.], theta=[[0, 0], [20, -10]]),
+    "single-wfs": dict(masks=[[[1, 1, 0], [0, 1, 1], [1, 0, 1]]], d=[1 / 3.], H=[0], theta=[[7, -3]]),
+    "large-L0": dict(masks=[[[1, 1, 0], [0, 1, 1], [1, 0, 0]], [[0, 1, 1], [1, 1, 0], [0, 0, 1]]], d=[1 / 3., 1 / 3.], H=[0, 0], theta=[[0, 0], [20, -10]], L0s=[300., 1000., 5000.]),
+    "small-L0": dict(masks=[numpy.ones((2, 2)), [[1, 0], [1, 1]]], d=[.5, .5], H=[0, 0], theta=[[0, 0], [15, 5]], L0s=[1., 2., 0.5]),
     "diff-d": dict(masks=[[[1, 1, 0], [0, 1, 1], [1, 0, 0]], numpy.ones((2, 2))], d=[1 / 3., .5], H=[0, 0], theta=[[0, 0], [5, 3]]),
 }
 
@@ -61,7 +64,7 @@ def chk_entries(inp):
         nw = len(c["masks"])
         T = 1.0
         lam = [500e-9, 600e-9, 550e-9][:nw]
-        alts, r0s, L0s = [0., 5000., 9000.], [.2, .3, .25], [25., 10., 30.]
+        alts, r0s, L0s = [0., 5000., 9000.], [.2, .3, .25], list(c.get("L0s", [25., 10., 30.]))
         masks = [numpy.asarray(m, dtype=float) for m in c["masks"]]
         cm = aotools.CovarianceMatrix(nw, masks, T, c["d"], c["H"], c["theta"], lam, 3, numpy.array(alts), r0s, L0s)
         M = cm.make_covariance_matrix().astype(float)
